@@ -106,7 +106,7 @@ def malformed_in_time(ctx):
 
 
 def run(ctx):
-    ctx.check_proofs(["MPilot.Props.C10"])
+    ctx.check_proofs(["MPilot.Props.C10", "MPilot.Props.C10Reject"])
     if not malformed_in_time(ctx):
         return ctx.finish(rule="malformed-text probe only: the parser did not answer in time", explanation="the in-process streams were not run")
     model = common.Model()
